@@ -21,6 +21,7 @@ BATCH = 40
 
 class C05(Prop):
     id = "C05"
+    tour_noisy = False
     level = "exploration"
     technique = "reference broadcast encoder -> loopback UDP -> running SwitcherBridge; callback-log monitor with unique tags and sentinel barriers; field-by-field oracle"
     rule = ("case = batch of 40 encoder-built broadcasts (all 9 types, both states) sent to a running bridge, closed by a sentinel broadcast; "
